@@ -162,6 +162,9 @@ func (d *DC) Update(src string, content map[string]DCKind, l Label) {
 			if k.State != "absent" {
 				// the loader expects base64 text inside Secret.Data (the repository's own convention, see its tests)
 				data[kind] = []byte(base64.StdEncoding.EncodeToString([]byte(dcText(kind, k))))
+				if k.State == "garbage" && d.rv%2 == 0 {
+					data[kind] = []byte("%%% this is not base64 %%%") // the other way a Secret entry can be unreadable
+				}
 			}
 		}
 		d.sec.VerifHandleUpdate(&corev1.Secret{ObjectMeta: meta, Data: data})
